@@ -63,10 +63,18 @@ func (x *c07Conn) inject(fr []byte) {
 type c07Params struct {
 	K    connCfg
 	Prog []string // ops like "A.readAll"
-	Prop string   // "" = C07; "C05": the pool invariant reported under C05 (a pooled object owned twice is shared, unsynchronised, by two connections)
+	// BFinal: the peers end every compressed message with a final deflate block whose
+	// trailing byte travels in a last frame of its own (RFC 7692 7.2.3.4)
+	BFinal bool
+	Prop   string // "" = C07; "C05": the pool invariant reported under C05 (a pooled object owned twice is shared, unsynchronised, by two connections)
 }
 
-func (p c07Params) name() string { return strings.Join(p.Prog, ",") + "/" + p.K.String() }
+func (p c07Params) name() string {
+	if p.BFinal {
+		return strings.Join(p.Prog, ",") + "/" + p.K.String() + "+bfinal"
+	}
+	return strings.Join(p.Prog, ",") + "/" + p.K.String()
+}
 
 const c07MsgLen = 600
 
@@ -96,17 +104,26 @@ var c07Streams = map[string][]byte{}
 // (peer Close, protocol error) really arrive in the middle of a message.
 const c07MaxRead = 3
 
+var c07BFinalStreams bool // set by the program setup for the execution being built
+
 func c07Open(st *c07State, k connCfg, tag byte, nmsgs int) *c07Conn {
 	x := &c07Conn{tag: tag, p: vpipe.New(), msgLen: c07MsgLen}
 	x.p.MaxRead = c07MaxRead
-	key := fmt.Sprintf("%s/%c/%d", k.String(), tag, nmsgs)
+	if !k.Flate {
+		x.p.MaxRead = 48 // 300-byte frames: still well inside a frame, far fewer transport reads
+	}
+	key := fmt.Sprintf("%s/%c/%d/%v", k.String(), tag, nmsgs, c07BFinalStreams)
 	in, ok := c07Streams[key]
 	if !ok {
 		// the peer's byte stream is the same in every execution: build it once
 		def := &deflate.Deflater{NoContextTakeover: k.readerNoTakeover()}
 		for i := 0; i < nmsgs; i++ {
 			pl := c07Msg(tag)
-			if k.Flate {
+			if k.Flate && c07BFinalStreams {
+				cp := def.MessageBFinal(pl)
+				in = append(in, peerFrame(k, frame.Frame{Fin: false, Rsv1: true, Opcode: frame.OpText, Payload: cp[:len(cp)-1]})...)
+				in = append(in, peerData(k, frame.OpCont, true, cp[len(cp)-1:])...)
+			} else if k.Flate {
 				cp := def.Message(pl)
 				in = append(in, peerFrame(k, frame.Frame{Fin: false, Rsv1: true, Opcode: frame.OpText, Payload: cp[:len(cp)/2]})...)
 				in = append(in, peerData(k, frame.OpCont, true, cp[len(cp)/2:])...)
@@ -306,6 +323,7 @@ func c07Setup(prm c07Params) func(c *fw.Ctx, name string) explore.Setup {
 			st := &c07State{conns: map[byte]*c07Conn{}}
 			vsync.PoolLogging = true
 			w.GoHarness("main", true, func() {
+				c07BFinalStreams = prm.BFinal
 				c07Open(st, prm.K, 'A', 3)
 				c07Open(st, prm.K, 'B', 3)
 				for _, op := range prm.Prog {
@@ -690,6 +708,10 @@ func c07Scenarios(tier string) []scenario {
 			// keep programs that touch at least two connections or read again / close
 			prm := c07Params{K: k, Prog: pr}
 			scs = append(scs, scenario{Name: prm.name(), Cfg: explore.Config{P: 0, Horizon: 60e9}, Setup: c07Setup(prm), Group: fmt.Sprintf("prog/%s/%d", k.String(), i%4)})
+			if k.Flate && (k.Client == k.CNCT || tier == "thorough") {
+				prm.BFinal = true
+				scs = append(scs, scenario{Name: prm.name(), Cfg: explore.Config{P: 0, Horizon: 60e9}, Setup: c07Setup(prm), Group: fmt.Sprintf("prog-bfinal/%s/%d", k.String(), i%4)})
+			}
 		}
 		for _, cl := range []string{"CloseNow", "peerClose", "ctx"} {
 			prm := c07ConcParams{K: k, Closer: cl}
